@@ -10,8 +10,11 @@
      Mode A: the victim sleeps 300 us after every wake-up (rt_wake_delay_us) while bargers
              cycle freely.
    Mixes: writer victim / writer bargers, reader victim / writer bargers, writer victim /
-   reader bargers, a light mix with two blocking victims, and a mix in which a second thread keeps
-   arriving through the blocking nsync_mu_lock (each call a fresh, never-queued attempt).
+   reader bargers, a light mix with two blocking victims, a mix in which a second thread keeps
+   arriving through the blocking nsync_mu_lock (each call a fresh, never-queued attempt), and a
+   mix with a GROUP of two or three reader victims (woken together by every release, so they pass
+   the threshold together; the first of them to acquire clears the shared long-wait bit and a
+   barger may get in once more before a straggler re-asserts it: bound + one per other victim).
 
    Oracles: the number of times the victim sleeps inside ONE lock call is at most
    LONG_WAIT_THRESHOLD + 2 (the constant is read from the tree under test; checked while it is still inside, by the bargers, and on
@@ -29,17 +32,18 @@ static struct {
 	int mix, nbarg, nacq, nvict;
 	int victim_done;            /* number of victims finished */
 	int barger_holds;           /* some barger holds the mutex (set under it) */
-	unsigned long base_sleeps[2];
-	int in_call[2];
-	int vdone[2];
+	unsigned long base_sleeps[3];
+	int in_call[3];
+	int vdone[3];
 	int fresh_tid, fresh_in_call; /* mix 4: the fresh locker's id, and whether it is inside nsync_mu_lock */
 	int window;                 /* a barger has just released the mutex while a victim was inside a lock call */
 	int queued[RT_MAXT];        /* the thread has put itself on the mutex queue during its current lock call */
 	unsigned max_sleeps;
 	unsigned hist[40];
 } S;
-enum { CV_ACQ = 0, CV_SLEEPS, CV_BARGE_OK, CV_BARGE_FAIL, CV_LONGWAIT_SET, CV_MAX31, CV_FRESH };
+enum { CV_ACQ = 0, CV_SLEEPS, CV_BARGE_OK, CV_BARGE_FAIL, CV_LONGWAIT_SET, CV_MAX31, CV_FRESH, CV_GROUP_STRAGGLER };
 
+#define READER_MIX (S.mix == 1 || S.mix == 5)
 static int is_victim (int tid) { return (tid < S.nvict); }
 
 static void word_cb (int idx, int op, uint32_t old_v, uint32_t new_v, int ok) {
@@ -65,12 +69,12 @@ static void word_cb (int idx, int op, uint32_t old_v, uint32_t new_v, int ok) {
 static void check_overtaken (int v) {
 	if (__atomic_load_n (&S.in_call[v], __ATOMIC_ACQUIRE)) {
 		unsigned long s = rt_thread_sleeps (v) - S.base_sleeps[v];
-		if (s > BOUND + 8) rt_violation ("overtaken", S.mix == 1 ? "reader-victim" : "writer-victim", "the victim has been sent back to sleep %lu times inside one %s call and is still waiting (bound %d)", s, S.mix == 1 ? "nsync_mu_rlock" : "nsync_mu_lock", BOUND);
+		if (s > BOUND + 8) rt_violation ("overtaken", READER_MIX ? "reader-victim" : "writer-victim", "the victim has been sent back to sleep %lu times inside one %s call and is still waiting (bound %d)", s, READER_MIX ? "nsync_mu_rlock" : "nsync_mu_lock", BOUND + (S.mix == 5 ? S.nvict - 1 : 0));
 	}
 }
 
 static void victim (int tid) {
-	int i, reader = (S.mix == 1);
+	int i, reader = READER_MIX, bound = BOUND + (S.mix == 5 ? S.nvict - 1 : 0);
 	if (!rt_mode_b ()) rt_wake_delay_us (tid, 300);
 	for (i = 0; i < S.nacq; i++) {
 		int spins = 0; unsigned s;
@@ -86,7 +90,8 @@ static void victim (int tid) {
 		S.hist[s < 39 ? s : 39]++;
 		if (s >= 31) rt_cover (CV_MAX31);
 		if (s) rt_mark_nontrivial ();
-		if (s > BOUND) rt_violation ("overtaken", reader ? "reader-victim" : "writer-victim", "%s slept %u times before it acquired (bound %d = LONG_WAIT_THRESHOLD + 2)", reader ? "nsync_mu_rlock" : "nsync_mu_lock", s, BOUND);
+		if (S.mix == 5 && s > LONG_WAIT_THRESHOLD + 1) rt_cover (CV_GROUP_STRAGGLER);
+		if ((int) s > bound) rt_violation ("overtaken", reader ? "reader-victim" : "writer-victim", "%s slept %u times before it acquired (bound %d = LONG_WAIT_THRESHOLD + 2%s)", reader ? "nsync_mu_rlock" : "nsync_mu_lock", s, bound, S.mix == 5 ? " + one per other victim of the reader group" : "");
 		rt_ev (0x100u + s);
 		rt_point ("victim-section");
 		if (reader) RT_OP ("nsync_mu_runlock", nsync_mu_runlock (&S.mu)); else RT_OP ("nsync_mu_unlock", nsync_mu_unlock (&S.mu));
@@ -166,23 +171,24 @@ static int adversary (int self, int forced, const int *run, int n) {
 static int setup (uint64_t seed) {
 	(void) seed;
 	nsync_mu_init (&S.mu);
-	S.mix = (int) rt_param ("mix", -1); if (S.mix < 0) S.mix = (int) rt_rand_n (5);
-	S.nvict = S.mix == 3 ? 2 : 1;
+	S.mix = (int) rt_param ("mix", -1); if (S.mix < 0) S.mix = (int) rt_rand_n (6);
+	S.nvict = S.mix == 3 ? 2 : S.mix == 5 ? 2 + (int) rt_rand_n (2) : 1;
 	S.nbarg = 1 + (int) rt_rand_n (2);
+	if (S.mix == 5 && S.nvict == 3) S.nbarg = 1;
 	if (S.mix == 4) S.nbarg = 2;      /* one try-lock barger and one fresh blocking locker */
 	S.nacq = 1 + (int) rt_rand_n (2);
-	S.victim_done = 0; S.barger_holds = 0; S.window = 0; S.fresh_in_call = 0; S.fresh_tid = (S.mix == 4) ? S.nvict + S.nbarg - 1 : 0; S.in_call[0] = S.in_call[1] = 0; S.vdone[0] = S.vdone[1] = 0; memset (S.queued, 0, sizeof (S.queued));
+	S.victim_done = 0; S.barger_holds = 0; S.window = 0; S.fresh_in_call = 0; S.fresh_tid = (S.mix == 4) ? S.nvict + S.nbarg - 1 : 0; S.in_call[0] = S.in_call[1] = S.in_call[2] = 0; S.vdone[0] = S.vdone[1] = S.vdone[2] = 0; memset (S.queued, 0, sizeof (S.queued));
 	rt_watch_word (0, &S.mu.word, &word_cb);
 	rt_ev ((uint32_t) (S.mix | S.nbarg << 4 | S.nacq << 8));
 	return (S.nvict + S.nbarg);
 }
 static void check (void) { if ((sc_word (&S.mu.word) & (SC_MU_ANY_LOCK | 2u | MU_LONG_WAIT)) != 0) rt_violation ("final-word", "held", "after every thread finished the mutex word is %#x", sc_word (&S.mu.word)); }
 static void teardown (void) { rt_watch_word (0, NULL, NULL); }
-static void describe (FILE *f) { static const char *const mn[] = { "writer victim / trylock bargers", "reader victim / trylock bargers", "writer victim / rtrylock bargers", "two writer victims / trylock bargers", "writer victim / trylock barger + fresh blocking lockers" };
+static void describe (FILE *f) { static const char *const mn[] = { "writer victim / trylock bargers", "reader victim / trylock bargers", "writer victim / rtrylock bargers", "two writer victims / trylock bargers", "writer victim / trylock barger + fresh blocking lockers", "group of reader victims / trylock bargers" };
 	fprintf (f, "{\"mix\":\"%s\",\"bargers\":%d,\"victim_acquisitions\":%d,\"max_sleeps_in_one_call_so_far\":%u}", mn[S.mix], S.nbarg, S.nacq, S.max_sleeps); }
 static void summary (FILE *f) { int i; fprintf (f, "\"sleeps_histogram\":["); for (i = 0; i < 40; i++) fprintf (f, "%s%u", i ? "," : "", S.hist[i]); fprintf (f, "]"); }
 static void pinit (void) {
 	rt_cover_name (CV_ACQ, "victim_acquisitions"); rt_cover_name (CV_SLEEPS, "victim_sleeps_total"); rt_cover_name (CV_BARGE_OK, "barger_trylock_ok"); rt_cover_name (CV_BARGE_FAIL, "barger_trylock_failed");
-	rt_cover_name (CV_LONGWAIT_SET, "long_wait_bit_set"); rt_cover_name (CV_MAX31, "acquisitions_that_needed_31_or_more_sleeps"); rt_cover_name (CV_FRESH, "fresh_blocking_attempts_in_the_window");
+	rt_cover_name (CV_LONGWAIT_SET, "long_wait_bit_set"); rt_cover_name (CV_MAX31, "acquisitions_that_needed_31_or_more_sleeps"); rt_cover_name (CV_FRESH, "fresh_blocking_attempts_in_the_window"); rt_cover_name (CV_GROUP_STRAGGLER, "reader_group_stragglers_overtaken_after_the_bit_was_cleared");
 }
 rt_scenario rt_scen = { "starve", "C14", 4, &pinit, &setup, &body, &check, &teardown, &describe, &summary, NULL, &adversary };
